@@ -21,6 +21,7 @@ import (
 	"sort"
 	"strconv"
 	"strings"
+	"sync/atomic"
 	"time"
 
 	"golang.org/x/tools/go/packages"
@@ -224,6 +225,15 @@ func worker() {
 		debug.SetMemoryLimit(int64(ms.HeapAlloc)*3/2 + 300<<20)
 	}
 	send(workerResp{Ready: true})
+	var pathStart atomic.Int64
+	go func() {
+		for {
+			time.Sleep(10 * time.Second)
+			if t := pathStart.Load(); t != 0 && time.Now().Unix()-t > 20 {
+				fmt.Fprintf(os.Stderr, "[worker %d] path running for %ds: %s\n", os.Getpid(), time.Now().Unix()-t, interp.DebugState())
+			}
+		}
+	}()
 	funcs := map[string]bool{}
 	in := bufio.NewReaderSize(os.Stdin, 1<<20)
 	dec := json.NewDecoder(in)
@@ -237,7 +247,9 @@ func worker() {
 		for n := 0; len(stack) > 0 && n < *flagBatch; n++ {
 			it := stack[len(stack)-1]
 			stack = stack[:len(stack)-1]
+			pathStart.Store(time.Now().Unix())
 			res := m.RunPath(fn, it, cfg)
+			pathStart.Store(0)
 			for _, f := range res.Funcs {
 				funcs[f] = true
 			}
